@@ -503,9 +503,10 @@ def well_known():
     return out
 
 
-def parse_type_urls(src_dir, top_mods):
+def parse_type_urls(src_dir, top_mods, strict=False):
     """every `impl TypeUrl for <path> { const TYPE_URL: &'static str = "<url>"; }` outside the generated files"""
     out = []
+    nonliteral = []
     for path in sorted(glob.glob(os.path.join(src_dir, "**", "*.rs"), recursive=True)):
         if os.sep + "proto" + os.sep in path:
             continue
@@ -522,7 +523,19 @@ def parse_type_urls(src_dir, top_mods):
         n_impl = len(re.findall(r"\bTypeUrl\s+for\b", txt))
         n_here = sum(1 for o in out if o["file"] == os.path.relpath(path, src_dir))
         if n_impl != n_here:
-            raise ExtractError(f"{path}: {n_impl} `TypeUrl for` occurrences but {n_here} parsed")
+            nonliteral.append(f"{path}: {n_impl} `TypeUrl for` occurrences but {n_here} literal registrations parsed")
+    if nonliteral:
+        # registrations that are not spelled as literal impl blocks (macros, generics): the registry cannot be read off the
+        # source any more. Fall back to the committed registry of spec/proto/baseline.json for the types not found - the
+        # harness reads each constant through `<T as TypeUrl>::TYPE_URL` at run time, so WHAT is registered for them is still
+        # observed, only the LIST of registered types is taken from the baseline.
+        bp = os.path.join(SPEC_DIR, "baseline.json")
+        if strict or not os.path.exists(bp):
+            raise ExtractError("; ".join(nonliteral))
+        have = {o["rust"] for o in out}
+        for u in json.load(open(bp))["type_urls"]:
+            if u["rust"] not in have:
+                out.append({"rust": u["rust"], "rust_src": u["rust_src"], "url_src": "", "file": u["file"], "line": 0, "from_baseline": True})
     return out
 
 
